@@ -146,6 +146,9 @@ func buildExchanges(t *sim.Tape, v int, overlimit bool) []exchange {
 		}
 		if t.Chance(1, 6) {
 			ex.respErr = string(hexish(sim.HashBytes("err", uint64(i), 1, t.Range(1, 100))))
+			if len(ex.respErr) > 8 && t.Chance(1, 2) {
+				ex.respErr = ex.respErr[:len(ex.respErr)/2] + ": " + ex.respErr[len(ex.respErr)/2:]
+			}
 			if v == 3 && t.Chance(1, 2) {
 				ex.errType = types.NewSpecifier(pick(t, "BadRequest", "HostFault", "x"))
 				ex.errData = sim.HashBytes("errdata", uint64(i), 2, t.Range(0, 40))
@@ -342,7 +345,16 @@ func runRHP2(s *Session, exs []exchange, wrongKey bool) {
 			}
 			e.inc("rpc.read")
 			if ex.respErr != "" {
-				err = t.WriteResponseErr(errors.New(ex.respErr))
+				// the error as the host's code has it: plain, an RPCError, or an RPCError
+				// wrapped with context (which travels as its whole text)
+				switch k := strings.LastIndex(ex.respErr, ": "); {
+				case len(ex.respErr)%3 == 1 && k > 0:
+					err = t.WriteResponseErr(fmt.Errorf("%s: %w", ex.respErr[:k], &rhp2.RPCError{Description: ex.respErr[k+2:]}))
+				case len(ex.respErr)%3 == 2:
+					err = t.WriteResponseErr(&rhp2.RPCError{Description: ex.respErr})
+				default:
+					err = t.WriteResponseErr(errors.New(ex.respErr))
+				}
 			} else {
 				err = t.WriteResponse(ex.resp)
 			}
